@@ -60,3 +60,11 @@ prop("C20",
      rule="C01 generator plus reuse histories (0-3 further ExecutePlan calls on the plan built for the first execution). Per call: exactly-once per reference path, Source identity (Tok id / request root), Args, FieldName, ReturnType, runtime ParentType, Path, FieldASTs, Operation, Fragments, VariableValues, RootValue, Schema, context marker; resolveType count per abstract value. Non-trivial = list depth >= 2, an abstract position with >= 2 runtime types, or a reused plan.",
      assumptions=EXEC_ASSUME,
      runs=[dict(test="^TestC20$", quick=dict(checks=3000), thorough=dict(checks=30000, shards=16, timeout=3000))])
+
+prop("C05",
+     level_text="generated-input search (rapid): input type x JSON-like value (conformant, or with exactly one of the named non-conformances injected at a drawn depth) x placement (variable, inline literal, variable default, argument default); oracle = independent input-coercion model + resolver-invocation counter + literal/variable metamorphic relation + literal-validity/variable-coercibility agreement",
+     note="values on which the port is knowingly lenient and the property is silent (numeric strings / booleans for Int and Float, fractional floats for Int, non-strings for String/Boolean) are never generated (DESIGN §3.3)",
+     technique="property-based testing (rapid): reference model of input coercion + metamorphic relation",
+     rule="schema from the C01 generator plus a probe field probe(x: T [= default]): String whose resolver records Args; T drawn over scalars, custom scalars, enums (int / string / name internals), nested input objects, wrappers to depth 3. Non-trivial = value nesting depth >= 2 or an argument default participates; distinct by hash of (schema, type, value).",
+     assumptions=EXEC_ASSUME,
+     runs=[dict(test="^TestC05$", quick=dict(checks=6000), thorough=dict(checks=60000, shards=16, timeout=3000))])
